@@ -142,6 +142,16 @@ def run(ctx):
         for rep in range(1 if quick else 6):
             sp = S.build(rnd, kind)
             pairs.append((P.ser_tx(sp.tx).hex(), P.ser_tx(sp.txin).hex()))
+    # every hash type at an input that is not the first one (the digest log lines name inputs and outputs by index), all logs on
+    for kind in S.KINDS:
+        tap = kind.startswith("p2tr")
+        for ht in ((0, 1, 2, 3, 0x81, 0x82, 0x83) if tap else (1, 2, 3, 0x81, 0x82, 0x83)):
+            sp = S.build(rnd, kind, {"hashtype": ht, "n_out": 3, "n_in": 1 if tap else 3, "idx": 0 if tap else 2})
+            txh, inh = P.ser_tx(sp.tx).hex(), P.ser_tx(sp.txin).hex()
+            for mode in (MODES[2], MODES[0]):
+                for opt in ([], ["-Dsighash,signing,segwit,taproot"]):
+                    tj.append((list(opt) + ["--tx=" + txh, "--txin=" + inh], mode, "\n" if mode[2] == "stdin" else "", {}))
+                    tl.append("SPEND %s %s -1 %d 0 - 0" % (txh.encode().hex(), inh.encode().hex(), R.STD))
     for (txh, inh) in pairs:
         for mode in MODES:
             for opt in (OPTS if not quick else [OPTS[0], OPTS[3], OPTS[5]]):
